@@ -79,8 +79,8 @@ def render_mpass(a, o):
                 after.append("(toN %s, %s, (%s)%%N, %s)" % (cbytes(idh), key(k), cls[c], "true" if f == "1" else "false"))
         else:
             return None
-    return "rm_check (rm_cfg (toN %s) %s) (%d)%%Z %s %s %s %s %s %s %s" % (
-        cbytes(kv["root"]), "true" if kv.get("nosec") == "1" else "false", NOW,
+    return "rm_check (rm_cfg (toN %s) %s) (%d)%%Z %s %s %s %s %s %s %s %s" % (
+        cbytes(kv["root"]), "true" if kv.get("nosec") == "1" else "false", NOW, "true" if kv.get("booted") == "1" else "false",
         glist(answering, "(N * (bytes * N))"), glist(fans, "(N * (bytes * N))"), glist(nodes, "node"), glist(classes, "N"),
         glist(boot, "rmk"), glist(obs, "rm_obs"), glist(after, "rm_after_entry"))
 
